@@ -150,14 +150,15 @@ def run(ctx):
     nobj = 0
     for k in range(ctx.n(20, 100)):
         pattern, desc = cl.rand_pattern(rng, cmax=5)
-        shapes = [(int(rng.integers(2, 30)), int(rng.integers(2, 30))) for _ in range(4)]
-        order = shapes + shapes[::-1]
+        shapes = [(int(rng.integers(2, 30)), int(rng.integers(2, 30))) for _ in range(3)]
+        shapes += [(shapes[0][0], shapes[0][1] ^ 1), (shapes[1][0], shapes[1][1] ^ 1)]   # same rfft2 shape, different width
+        order = shapes + shapes[::-1] + [shapes[i] for i in rng.permutation(len(shapes))]
         for s in order:
             fresh = cl.pattern_from_desc(desc)
             m1, m2 = pattern.get_mask(s), fresh.get_mask(s)
             t1, t2 = pattern.get_template(s), fresh.get_template(s)
             nobj += 1
-            if not (np.array_equal(m1, m2) and np.array_equal(t1, t2)):
+            if not (np.array_equal(m1, m2, equal_nan=True) and np.array_equal(t1, t2, equal_nan=True)):
                 ctx.violation('input', 'pattern object re-queried for shape %s after %s differs from a fresh object' % (s, order),
                               {'kind': 'history', 'call': 'get_mask/get_template', 'args': {'pattern': desc, 'shapes': order, 'at': list(s)}})
                 break
